@@ -18,6 +18,10 @@ import (
 
 type C20Case struct {
 	Text string `json:"text"`
+	// Config: 0 none; 1: a luahelper.json whose per-file rules (IgnoreFileErrTypes / IgnoreFileErr) name
+	// other files and, for this file, only a type that is not among the pattern checks — the reports must
+	// be the same as without it
+	Config int `json:"config,omitempty"`
 }
 
 func init() { register("C20", checkC20) }
@@ -39,7 +43,11 @@ func genC20(t *rapid.T) C20Case {
 	cfg.NoFuncInTargetIndex = gate("c05-func-in-target")
 	toks := luagen.Program(t, cfg)
 	src, _ := luagen.RenderSimple(toks)
-	return C20Case{Text: src}
+	cfg20 := 0
+	if rapid.IntRange(0, 3).Draw(t, "perFileRules") == 0 {
+		cfg20 = 1
+	}
+	return C20Case{Text: src, Config: cfg20}
 }
 
 type c20Key struct {
@@ -53,6 +61,12 @@ func checkC20(c C20Case, env *Env) *Violation {
 	}
 	flags := append([]int{1}, c20Types...)
 	req := &proto.Request{Cmd: "session", Files: []proto.File{{Path: "main.lua", Data: []byte(c.Text)}}, InitOptions: harness.J(harness.Flags(flags...))}
+	if c.Config == 1 {
+		req.Files = append(req.Files, proto.File{Path: "other/zzother.lua", Data: []byte("local zz = 1\n")},
+			proto.File{Path: "luahelper.json", Data: []byte(`{"BaseDir":"./","ShowWarnFlag":1,"IgnoreFileErr":["other/zzother.lua"],` +
+				`"IgnoreFileErrTypes":[{"File":"other/zzother.lua","Types":[5,7,8,13,14,15,16,19,20,21]},{"File":"main.lua","Types":[4]}]}`)})
+		env.Stats.Class("with-per-file-rules-for-other-files")
+	}
 	o := env.Exec(req)
 	if o.Crash() {
 		return violf("crash", "server died: %s\n%s", o.Describe(), c.Text)
@@ -71,6 +85,9 @@ func checkC20(c C20Case, env *Env) *Violation {
 		for _, d := range ds {
 			if d.Type == 1 {
 				return violf("inconclusive", "syntax diagnostic on a generated file: %s", d.Message)
+			}
+			if !wanted[d.Type] && c.Config == 1 {
+				continue // with a luahelper.json the server enables every check itself; only the pattern checks are compared
 			}
 			if !wanted[d.Type] {
 				return violf("other-type", "diagnostic of type %d although it is switched off: %s", d.Type, d.Message)
